@@ -1,0 +1,85 @@
+//go:build verif
+
+// Contracts for package server, read by the gvc verifier in /verif (build tag
+// "verif"). No code here: only the package clause and //@ lines.
+
+package server
+
+// ---------------------------------------------------------------------------
+// Loop (C20)
+// ---------------------------------------------------------------------------
+
+// Per-thread ghost counters of what the service callbacks were asked to do.
+//@ tlghost svcNew Int
+//@ tlghost svcAssigner Int
+//@ tlghost svcFinish Int
+
+// The caller's constructor yields a usable service (documented precondition).
+//@ role param Loop.newService
+//@   modifies svcNew
+//@   ensures svcNew == old(svcNew) + 1 && result != nil
+//@ role freevar Loop$2.newService
+//@   modifies svcNew
+//@   ensures svcNew == old(svcNew) + 1 && result != nil
+//@ role freevar Loop$2.log
+//@ iface Service.Assigner
+//@   modifies svcAssigner
+//@   ensures svcAssigner == old(svcAssigner) + 1
+//@ iface Service.Finish
+//@   modifies svcFinish
+//@   ensures svcFinish == old(svcFinish) + 1
+// A successful Accept yields a channel ("returns a new channel for it").
+//@ iface Accepter.Accept
+//@   ensures result1 == nil ==> result0 != nil
+
+// Loop returns only through wg.Wait(); a closed-listener failure is reported as
+// nil, any other accepter failure as itself. Every connection goroutine is
+// started after wg.Add(1) and owes one Done.
+//@ func Loop
+//@   requires ctx != nil && lst != nil && newService != nil
+//@   ensures[C20:waits-before-return] called("call.Wait#1")
+//@   ensures[C20:closing-is-nil] isErrClosing(callres("call.Accept#1", 1, "error")) ==> result == nil
+//@   ensures[C20:failure-reported] !isErrClosing(callres("call.Accept#1", 1, "error")) ==> result == callres("call.Accept#1", 1, "error") && result != nil
+//@   loop 1 invariant wgDebt(wg) == 0 && log != nil
+
+// One connection: a fresh service; if its Assigner fails there is no server,
+// no Finish, and the connection is closed; otherwise exactly one server is
+// started on this connection and Finish is called exactly once, after
+// WaitStatus returned, with that assigner and that status. Done is paid last.
+//@ func Loop$2
+//@   root
+//@   transfer wgDebt(wg), 1
+//@   captures wg != nil && ch != nil && newService != nil && log != nil && ctx != nil
+//@   modifies svcNew, svcAssigner, svcFinish, wgDebt(wg), chCloses(ch), fired, idsIssued
+//@   at call.Start#1 assert[C20:server-on-this-connection] arg1 == ch
+//@   at call.Finish#1 assert[C20:finish-after-exit] called("call.WaitStatus#1")
+//@   at call.Finish#1 assert[C20:finish-args] arg0 == callres("call.Assigner#1", 0, "jrpc2.Assigner") && arg1 == callres("call.WaitStatus#1", 0, "jrpc2.ServerStatus")
+//@   ensures[C20:done-paid] wgDebt(wg) == 0
+//@   ensures[C20:fresh-service] svcNew == old(svcNew) + 1 && svcAssigner == old(svcAssigner) + 1
+//@   ensures[C20:finish-exactly-once] svcFinish == old(svcFinish) + (called("call.Start#1") ? 1 : 0)
+//@   ensures[C20:failed-service-no-server] callres("call.Assigner#1", 1, "error") != nil ==> !called("call.NewServer#1") && !called("call.Finish#1")
+//@   ensures[C20:failed-service-closes] callres("call.Assigner#1", 1, "error") != nil ==> chCloses(ch) == old(chCloses(ch)) + 1
+//@   ensures[C20:good-service-served] callres("call.Assigner#1", 1, "error") == nil ==> called("call.Start#1") && called("call.Finish#1")
+
+// The context watcher: stops this connection's server once the context ends.
+//@ func Loop$2$1
+//@   root
+//@   captures sctx != nil && wfServer(srv)
+//@   modifies monitor(Server, srv), fired, chCloses
+
+// NetAccepter: an Accept failure yields no channel and is always the
+// listener's own error - when the context ends that is the closed-listener
+// error Loop maps to nil, never a context error; the watcher's stop channel is
+// closed exactly once, on every return.
+//@ role field netAccepter.newChannel
+//@   ensures result != nil
+//@ func (netAccepter).Accept
+//@   requires ctx != nil && n.Listener != nil && n.newChannel != nil
+//@   ensures[C20:failure-no-channel] result1 != nil ==> result0 == nil
+//@   ensures[C20:success-channel] result1 == nil ==> result0 != nil
+//@   ensures[C20:errors-are-the-listeners] result1 != nil ==> called("call.Accept#1") && result1 == callres("call.Accept#1", 1, "error")
+//@ func (netAccepter).Accept$1
+//@   root
+//@   captures ctx != nil && ok != nil && chantyped(ok) && n.Listener != nil
+
+//@ census[C20] finish-only-after-exit: invokes Finish only-in Loop$2
